@@ -146,6 +146,57 @@ def walk_read(lx, name, idx, elm, siz, budget, cnt, stats):
             return ('no-termination', steps, got)
 
 
+def client_walks(violations, distinct):
+    from . import netsim, sim
+    from cpppo.server.enip import client
+    ev = 0
+    for typ, siz, code, budget in (('SINT', 1, 0xc2, 4), ('INT', 2, 0xc3, 4), ('DINT', 4, 0xc4, 10), ('USINT', 1, 0xc6, 1)):
+        cnt = 9
+        vals = [(i * 7 + 3) % 100 for i in range(cnt)]
+        try:
+            with netsim.Server({'T': (typ, cnt)}, max_bytes=budget) as srv:
+                sim.write_tag(sim.device.lookup(0x02, 1), 'T', 0, cnt, code, vals)
+                conn = client.connector(host='127.0.0.1', port=srv.port, timeout=3.0)
+                if True:
+                    per = (budget + siz - 1) // siz
+                    for start, count in ((0, per), (0, per + 1), (2, 2 * per + 1), (0, cnt), (3, 1), (cnt - 1, 1)):
+                        if start + count > cnt:
+                            continue
+                        ev += 1
+                        distinct.add(('client-walk', typ, budget, start, count))
+                        got, frags, off, bad = [], [], 0, None
+                        while bad is None:
+                            with conn:
+                                conn.read(path=[{'symbolic': 'T'}, {'element': start}], elements=count, offset=off, timeout=3.0)
+                                rsp, _ = client.await_response(conn, timeout=3.0)
+                            rpy = rsp and rsp.get('enip.CIP.send_data.CPF.item[1].unconnected_send.request')
+                            if not rpy or rsp.enip.status != 0:
+                                bad = 'no reply at offset %d' % off
+                                break
+                            dat = rpy.get('read_frag.data')
+                            frags.append((rpy.status, None if dat is None else len(dat)))
+                            if rpy.status not in (0, 6) or not dat:
+                                bad = 'fragment at offset %d: status %r data %r' % (off, rpy.status, dat)
+                                break
+                            got += list(dat)
+                            off += len(dat) * siz
+                            if rpy.status == 0:
+                                break
+                            if len(frags) > cnt + 2:
+                                bad = 'no final fragment after %d fragments' % len(frags)
+                        if bad is None and got != vals[start:start + count]:
+                            bad = 'reassembled %r' % (got,)
+                        if bad and len(violations) < 8:
+                            violations.append(dict(key='client read-walk %s budget=%d start=%d count=%d' % (typ, budget, start, count), observed='%s; fragments %r' % (bad, frags),
+                                                   required=repr(vals[start:start + count])))
+                            break
+                conn.close()
+        except Exception as e:
+            if len(violations) < 8:
+                violations.append(dict(key='client read-walk %s budget=%d' % (typ, budget), observed='raised %s: %s' % (type(e).__name__, str(e)[:150]), required='reassembly through the real client'))
+    return ev
+
+
 def bounded(tier, seed):
     from . import sim
     rng = random.Random(seed)
@@ -197,6 +248,31 @@ def bounded(tier, seed):
                                     violations.append(dict(key='write-walk %s len=%d idx=%d elm=%d piece=%d' % (typ, cnt, idx, elm, piece),
                                                            observed=repr(after), required=repr(want)))
                                 vals = after
+    # floating point element types (values exactly representable in 32 bits), on tags configured with float and with integer initial values
+    for typ, siz, code in (('REAL', 4, 0xca), ('LREAL', 8, 0xcb)):
+        for zero in (0.0, 0):
+            for budget in (4, 9, 16):
+                cnt = 6
+                lx = sim.fresh({'T': (typ, cnt, None, zero)}, max_bytes=budget)
+                for piece in (1, 2, cnt):
+                    newv = [k + 0.5 + 0.25 * piece for k in range(cnt)]
+                    off = 0
+                    okst = True
+                    while off < cnt:
+                        chunk = newv[off:off + piece]
+                        d = sim.write_frag(lx, 'T', 0, cnt, off * siz, code, chunk)
+                        stats['evaluations'] += 1
+                        okst = okst and d.status == 0
+                        off += len(chunk)
+                    after = sim.tag_values('T')
+                    distinct.add(('wf', typ, repr(zero), budget, piece))
+                    if not okst or after != newv:
+                        violations.append(dict(key='write-walk %s (initial values %r) budget=%d piece=%d' % (typ, zero, budget, piece), observed=repr(after), required=repr(newv)))
+                    r = walk_read(lx, 'T', 0, cnt, siz, budget, cnt, stats)
+                    if not (r[0] == 'done' and r[2] == newv):
+                        violations.append(dict(key='read-walk %s (initial values %r) budget=%d' % (typ, zero, budget), observed=repr(r)[:300], required=repr(newv)))
+    # through the real client and server over TCP: the reassembly loop of the property with the client's own reply parsing
+    stats['evaluations'] += client_walks(violations, distinct)
     # client side: operation strings that tile a range with Write Tag Fragmented (offset = tile start * element size)
     from cpppo.server.enip import client
     from .C12 import ref_operation, norm_op
